@@ -543,7 +543,20 @@ def rule_get_newer(ctx):
         exp = old == "None" or nw is True
         if ("push" in reach) != exp:
             bad.append(((old, nw), sorted(reach)))
-    ctx.ob(R, "entry table", not bad, "an entry is pushed iff the old state has none for its key or it is newer (4 valuations)" if not bad else
+    # ... and MUST be pushed then: with the push sites removed, the iteration cannot complete (no way back to the loop head)
+    # when the old state has no entry or an older one - an additional skip condition (e.g. "same version") hides updates
+    if head is not None and not bad:
+        cfg = ctx.cfg(h, with_cancel=False)
+        pbs = frozenset(c["bb"] for c in push)
+        for val in ({"old entry": "None"}, {"old entry": "Some", "newer": True}):
+            full = dict(val)
+            full.setdefault("newer", True)
+            r = W.reachable(full, head, pbs)
+            back = [x for x in r if x != head and any(y == head for _, y in cfg.succ[x])] if len(r) > 1 else []
+            # the first visit of the head itself is the start; a predecessor of the head inside the walked set is a completed iteration
+            if back:
+                bad.append(((val.get("old entry"), val.get("newer", "-")), ["iteration completes without push"]))
+    ctx.ob(R, "entry table", not bad, "an entry is pushed iff the old state has none for its key or it is newer (4 valuations; must-push under the pushing rows)" if not bad else
            "get_newer deviates for (old entry, is_newer) = %s: %s" % (bad[:3], "updates are not propagated" if any(k[0] == "Some" and k[1] is True for k, _ in bad) else "entries the peer already has are re-sent / wrong entries selected"), h.loc())
     # operands: current.is_newer(old) - not the other way round
     ok = True
